@@ -266,6 +266,7 @@ def register(reg, repo):
     STEP = "callcount('env.gen.send') + callcount('env.gen.throw')"
     _late.append(register_unwrap)
     _late.append(register_extract)
+    _late.append(register_unwrap_computed)
     reg.add(C(T + "_continue_on_generator", modifies="*",
               requires=["not computed(self)", "self.running == False", "error is None or wellformed_exc(error)"],
               calls={"self._generator.send": "env.gen.send", "self._generator.throw": "env.gen.throw",
@@ -414,6 +415,44 @@ def register_unwrap(reg, repo):
                       "inv()", "two_state('old')"]},
               note="E: a yielded list/dict is not mutated while it is being unwrapped (loop invariants 2/3 state it; unknown code running "
                    "inside future.value() could in principle mutate it: listed assumption via the invariants' frame clauses)"))
+
+
+def register_unwrap_computed(reg, repo):
+    """Second contract on the body of unwrap, the one _continue relies on: when every future inside `value` is computed,
+    unwrap runs no unknown code and writes nothing but fresh containers.  Replaces the formerly trusted caller-facing contract
+    (unwrap!effectfree)."""
+    import copy
+    from pyvc.contract import Contract as C
+    g = reg.contracts["async_task.unwrap"]
+    reg.contracts.pop("async_task.unwrap!effectfree", None)
+    LEAVES = "all(implies(Leaf(value, f), alloc(f) and computed(f)) for f in vals())"
+    FRESH_ONLY = "only_fresh('$llen', '$litem', '$dhas', '$dget', '$olen', '$okey', '$oval')"
+    c = C("async_task.unwrap!computed", params=["value"],
+          modifies=["$alloc", "$llen", "$litem", "$dhas", "$dget", "$olen", "$okey", "$oval"],
+          requires=[LEAVES],
+          assumes=list(g.assumes) + ["EF_def(value)"],
+          types=dict(g.types),
+          post=list(g.post) + ["no_callout()", FRESH_ONLY],
+          xpost=list(g.xpost) + ["no_callout()", FRESH_ONLY],
+          invariants={k: list(v) + [FRESH_ONLY] for k, v in copy.deepcopy(g.invariants).items()},
+          calls={"unwrap": "async_task.unwrap!computed"},
+          labels=dict(g.labels),
+          note="every future inside the value is computed (requires): future.value() is then pure (pure_when of FutureBase.value), so the body "
+               "runs no unknown code; the list/dict frame clauses of the loop invariants are proved instead of assumed")
+    c.labels[("post", len(g.post))] = "runs-no-unknown-code"
+    c.labels[("post", len(g.post) + 1)] = "writes-only-containers-it-created"
+    c.labels.pop("site_assumes_after", None)
+    reg.add(c)
+    cont = reg.contracts["async_task.AsyncTask._continue"]
+    cont.calls["unwrap"] = c.name
+    sa = cont.labels.setdefault("site_assumes", {})
+    # A: the dependencies of a suspended task cover every future inside its last yielded value (proved when the value is accepted:
+    #    _accept_yield_result#every-future-inside-the-yielded-value-becomes-a-dependency; assumed to survive the suspension, i.e. the
+    #    yielded containers are not mutated meanwhile), and the unfolding of Leaf holds for that value in the current heap
+    sa["unwrap"] = ["all(implies(Leaf(self._last_value, f), any(self._dependencies[j] is f for j in range(0, len(self._dependencies)))) "
+                    "for f in vals())"]
+    # W: an exception stored in a future never carries the private marker as StopIteration.value / AsyncTaskResult.result
+    sa.setdefault("self._continue_on_generator", []).append("error is None or wellformed_exc(error)")
 
 
 def register_extract(reg, repo):
